@@ -189,6 +189,10 @@ func (e *Exec) feasible(c *Term) bool {
 	if c.IsFalse() {
 		return false
 	}
+	if !deadline.IsZero() && e.cfg.Concrete == nil && time.Now().After(deadline) {
+		// the run's time budget also ends a path that is still being executed
+		panic(pathAbort{"bound", "time budget exhausted inside a path"})
+	}
 	for _, p := range e.pc {
 		if p == c {
 			return true
